@@ -7,7 +7,7 @@ FUN = ['FIX8::Message::clone', 'FIX8::MessageBase::copy_legal', 'FIX8::MessageBa
 MODES = {0: 'clone', 1: 'copy', 2: 'move'}
 
 def run(ctx):
-    kf = known_findings('C11'); defs = kf_defines(kf)
+    kf = l3.kfs('C11'); defs = kf_defines(kf)
     l3.world(ctx)
     quick = [('basic', 0), ('group1', 1), ('group1', 2)]
     thorough = quick + [('group1', 0), ('basic', 1), ('basic', 2), ('group2', 0), ('group2', 1), ('group2', 2), ('tsdata', 0), ('tsdata', 1), ('tsdata', 2), ('all', 0), ('all', 1), ('bigint', 0)]
